@@ -169,8 +169,19 @@ def worker_report(c, runs):
         if run_.get("worker_ops"):
             nruns += 1
             nops += run_["worker_ops"]
-        if run_.get("worker_diff") and not any(v[0] == "worker-correspondence" for v in c.violations):
-            c.violation("worker-correspondence", run_["worker_diff"], found_input=False)
+        if run_.get("worker_diff") and not any(v[0] in ("worker-correspondence", "lp-level-result-differs") for v in c.violations):
+            # the worker model no longer describes process.c / fossil.c: is the same script already a failing input?  The script ends by
+            # running the queue out, so every LP's final digest must be the sequential one (C01 / C05 at LP level)
+            res, pr = run_["res"], run_["prog"]
+            if res.returned and not res.sanitizer and res.final != pr["seqfull"].final:
+                wd = run_["worker_diff"]
+                c.violation("lp-level-result-differs", dict(kind="property", what="final LP digests after the scripted run differ from the sequential execution",
+                            program=pr["text"], script=run_["script"], checkpoint_interval=run_["cfg"][1], first_divergence_from_worker_model=dict(
+                                after_script_line=wd.get("after_script_line"), op=wd.get("op"), impl=wd.get("impl"), model=wd.get("model")),
+                            differing=[(a, b) for a, b in zip(res.final, pr["seqfull"].final) if a != b][:4],
+                            how="harness/drv_lp <program> <ckpt> < script   vs   model_driver seq <program>"), True)
+            else:
+                c.violation("worker-correspondence", run_["worker_diff"], found_input=False)
     return dict(worker_model_runs=nruns, worker_model_states_compared=nops)
 
 
@@ -207,7 +218,76 @@ def seq_per_lp(seq):
     return d
 
 
-def lp_campaign(c, ctx, r, nprogs, mask, gvt_slack=(0, 0, 1, 3), steps=400, worker=True):
+def gen_lp_script(r, steps=400, gvt_slack=(0, 0, 1, 3)):
+    """a script for harness/drv_lp: P n (process n messages), H k (hold the next k sent messages back), U i / A (hand held messages back),
+    G d (announce a legal GVT), E (run the queue out)"""
+    script = []
+    for _ in range(steps):
+        x = r.below(10)
+        if r.chance(1, 12):
+            # run-ahead pattern: a message is kept in flight while the LPs go on, GVT rounds happen below it, then it lands
+            script += ["H %d" % r.range(1, 2), "P %d" % r.range(1, 8), "G %d" % r.choice([0, 1, 3]), "P %d" % r.range(1, 8),
+                       "G 0", "P %d" % r.range(1, 4), "G 0", "P %d" % r.range(1, 4), r.choice(["A", "U 0", "U 1"])]
+        elif x < 4:
+            script.append("P %d" % r.range(1, 6))
+        elif x < 6:
+            script.append("H %d" % r.range(1, 3))
+        elif x < 8:
+            script.append("U %d" % r.below(50))
+        elif x < 9:
+            script.append("G %d" % r.choice(list(gvt_slack)))
+        else:
+            script.append("A")
+    script.append("E")
+    return script
+
+
+def lp_libm_campaign(c, ctx, r, nprogs):
+    """programs drawing through libm (Normal, Expent, Gamma, Zipf, ...: no Gallina twin) at LP level: the same program is run by harness/drv_lp
+    once in timestamp order (script 'E': no rollback) and once under a script of late deliveries, cancellations and GVT announcements; at the end
+    of both every LP's digest (hash chain over every event, draw and buffer word) must be the same: the random stream is part of the state a
+    rollback restores.  Returns (runs compared, rollbacks observed, first difference or None)."""
+    okb, lgb, objs = V.build_impl(ctx["sd"])
+    okd, lgd, exe = V.build_driver(ctx["sd"], "drv_lp", objs, srcs=["app.c"])
+    if not (okb and okd):
+        c.violation("build-failed", dict(kind="build", log=(lgb + lgd)[-2000:]), False)
+        return 0, 0, None
+    ncmp = nrb = 0
+    bad = None
+    for k in range(nprogs):
+        p = progen.gen_program(r, lps=r.choice([1, 2, 3, 5]), target=r.choice([20, 40]), libm=True, zero_ts=(k % 3 == 0))
+        text = progen.render(p)
+        pf = os.path.join(ctx["sd"], "lplibm%d.txt" % k)
+        open(pf, "w").write(text)
+        ck = r.choice([1, 1, 2, 3, 5])
+        rc0, so0, se0 = V.run([exe, pf, str(ck)], inp="E\n", timeout=120, env={"VERIF_WATCHDOG": "100"})
+        ref = [l for l in so0.split("\n") if l.startswith("F ")]
+        if rc0 != 0 or "RET 0" not in so0:
+            continue
+        script = gen_lp_script(r, 300)
+        tf = os.path.join(ctx["sd"], "lplibmtrace%d.txt" % k)
+        rc, so, se = V.run([exe, pf, str(ck)], inp="\n".join(script) + "\n", timeout=180,
+                           env={"VERIF_TRACE_FILE": tf, "VERIF_TRACE_MASK": str(S.mask("ROLLBACK")), "VERIF_WATCHDOG": "120"})
+        tr = S.read_trace(tf)
+        if os.path.exists(tf):
+            os.remove(tf)
+        if ("ERROR: AddressSanitizer" in se) or ("runtime error:" in se):
+            res = S.SimResult(); res.rc, res.out, res.err, res.sanitizer, res.cmd = rc, so, se, True, "harness/drv_lp <program> %d < script" % ck
+            sanitizer_violation(c, res, text, dict(variant="lp-level libm", checkpoint_interval=ck, script=script))
+            continue
+        if rc != 0 or "RET 0" not in so:
+            continue
+        ncmp += 1
+        nrb += sum(1 for x in tr if x["kind"] == "ROLLBACK")
+        fin = [l for l in so.split("\n") if l.startswith("F ")]
+        if fin != ref and bad is None:
+            bad = dict(kind="property", what="final LP digests of a scripted run with rollbacks differ from the in-order run of the same program (libm draws)",
+                       program=text, script=script, checkpoint_interval=ck, differing=[(a, b) for a, b in zip(fin, ref) if a != b][:4],
+                       how="harness/drv_lp <program> <ckpt> < script   vs   echo E | harness/drv_lp <program> <ckpt>")
+    return ncmp, nrb, bad
+
+
+def lp_campaign(c, ctx, r, nprogs, mask, gvt_slack=(0, 0, 1, 3), steps=400, worker=True, low_targets=False):
     """LP-level driver (harness/drv_lp.c): one worker hosts every LP; the driver plays the network (holds messages back and
     returns them late) and announces legal GVT values.  Dense stragglers, anti-messages, rollbacks and fossil collections,
     deterministic and single-threaded.  Returns run records like campaign()."""
@@ -219,30 +299,13 @@ def lp_campaign(c, ctx, r, nprogs, mask, gvt_slack=(0, 0, 1, 3), steps=400, work
     runs = []
     for k in range(nprogs):
         sparse = (k % 2 == 1)      # silent handlers: history entries that are followed at once by a checkpoint
-        p = progen.gen_program(r, lps=r.choice([1, 2, 3, 5, 8]), target=r.choice([20, 40, 100]), heavy_mem=(k % 4 == 0), zero_ts=(k % 3 == 0),
-                               sparse=sparse)
+        p = progen.gen_program(r, lps=r.choice([1, 2, 3, 5, 8]), target=r.choice([20, 40, 100]) if not low_targets else r.choice([2, 3, 5, 8]),
+                               heavy_mem=(k % 4 == 0), zero_ts=(k % 3 == 0), sparse=sparse)
         text = progen.render(p)
         pf = os.path.join(ctx["sd"], "lpprog%d.txt" % k)
         open(pf, "w").write(text)
         seqfull = S.run_seq(ctx["mexe"], pf, log=True, evalinit=True, stop=False)
-        script = []
-        for _ in range(steps):
-            x = r.below(10)
-            if r.chance(1, 12):
-                # run-ahead pattern: a message is kept in flight while the LPs go on, GVT rounds happen below it, then it lands
-                script += ["H %d" % r.range(1, 2), "P %d" % r.range(1, 8), "G %d" % r.choice([0, 1, 3]), "P %d" % r.range(1, 8),
-                           "G 0", "P %d" % r.range(1, 4), "G 0", "P %d" % r.range(1, 4), r.choice(["A", "U 0", "U 1"])]
-            elif x < 4:
-                script.append("P %d" % r.range(1, 6))
-            elif x < 6:
-                script.append("H %d" % r.range(1, 3))
-            elif x < 8:
-                script.append("U %d" % r.below(50))
-            elif x < 9:
-                script.append("G %d" % r.choice(list(gvt_slack)))
-            else:
-                script.append("A")
-        script.append("E")
+        script = gen_lp_script(r, steps, gvt_slack)
         ck = r.choice([1, 1, 2, 3, 5, 0]) if not sparse else r.choice([1, 1, 1, 2])
         tf = os.path.join(ctx["sd"], "lptrace%d.txt" % k)
         lsf = os.path.join(ctx["sd"], "lpstate%d.txt" % k)
